@@ -718,6 +718,15 @@ package spdxexp
 //@ lemma[C10] leavesDistribute: forall a Tree, b Tree, d Tree, x Tree :: leafOf(TNode("and", a, TNode("or", b, d)), x) <==> leafOf(TNode("or", TNode("and", a, b), TNode("and", a, d)), x)
 // An allowed list that covers every term of an expression satisfies it (C06: with the round trip "the canonical string
 // of a term parses to that term" this is the self-satisfaction clause Satisfies(e, ExtractLicenses(e))).
+// Token level of the round trip (C06): the canonical token sequence of a term - license id, '+' if flagged, WITH and the
+// exception if any; [DocumentRef ':'] LicenseRef - is derived by the reference grammar from exactly that sequence, and the
+// tree it yields is the term.  (That the canonical STRING lexes to that sequence is the lexical half, which stays bounded.)
+//@ lemma[C06,lemmaonly] leafTokensLic00: forall a seq[token], id string :: a[0].role == 3 && a[0].value == id ==> sExpr(a, 1, 0) == 1 && tAtom(a, 1, 0) == TLic(id, HasSuffix(id, "-or-later"), false, "") && tAnd(a, 1, 0) == TLic(id, HasSuffix(id, "-or-later"), false, "") && tExpr(a, 1, 0) == TLic(id, HasSuffix(id, "-or-later"), false, "")
+//@ lemma[C06,lemmaonly] leafTokensLic10: forall a seq[token], id string :: a[0].role == 3 && a[0].value == id && a[1].role == 0 && a[1].value == "+" ==> sExpr(a, 2, 0) == 2 && tAtom(a, 2, 0) == TLic(id, true, false, "") && tAnd(a, 2, 0) == TLic(id, true, false, "") && tExpr(a, 2, 0) == TLic(id, true, false, "")
+//@ lemma[C06,lemmaonly] leafTokensLic01: forall a seq[token], id string, e string :: a[0].role == 3 && a[0].value == id && a[1].role == 0 && a[1].value == "WITH" && a[2].role == 4 && a[2].value == e ==> sExpr(a, 3, 0) == 3 && tAtom(a, 3, 0) == TLic(id, HasSuffix(id, "-or-later"), true, e) && tAnd(a, 3, 0) == TLic(id, HasSuffix(id, "-or-later"), true, e) && tExpr(a, 3, 0) == TLic(id, HasSuffix(id, "-or-later"), true, e)
+//@ lemma[C06,lemmaonly] leafTokensLic11: forall a seq[token], id string, e string :: a[0].role == 3 && a[0].value == id && a[1].role == 0 && a[1].value == "+" && a[2].role == 0 && a[2].value == "WITH" && a[3].role == 4 && a[3].value == e ==> sExpr(a, 4, 0) == 4 && tAtom(a, 4, 0) == TLic(id, true, true, e) && tAnd(a, 4, 0) == TLic(id, true, true, e) && tExpr(a, 4, 0) == TLic(id, true, true, e)
+//@ lemma[C06,lemmaonly] leafTokensRef0: forall a seq[token], r string :: a[0].role == 2 && a[0].value == r ==> sExpr(a, 1, 0) == 1 && tAtom(a, 1, 0) == TRef(false, "", r) && tAnd(a, 1, 0) == TRef(false, "", r) && tExpr(a, 1, 0) == TRef(false, "", r)
+//@ lemma[C06,lemmaonly] leafTokensRef1: forall a seq[token], d string, r string :: a[0].role == 1 && a[0].value == d && a[1].role == 0 && a[1].value == ":" && a[2].role == 2 && a[2].value == r ==> sExpr(a, 3, 0) == 3 && tAtom(a, 3, 0) == TRef(true, d, r) && tAnd(a, 3, 0) == TRef(true, d, r) && tExpr(a, 3, 0) == TRef(true, d, r)
 //@ lemma[C06,induct,lemmaonly] coveredLeavesSatisfy: forall c seq[string], n int, t Tree :: (forall x Tree :: leafOf(t, x) ==> covLc(x, c, n)) ==> semL(t, c, n)
 
 //@ func Satisfies
